@@ -27,6 +27,7 @@ import (
 	"sort"
 	"strconv"
 	"strings"
+	"sync"
 
 	"github.com/Dash-Industry-Forum/livesim2/cmd/livesim2/app"
 	"github.com/Dash-Industry-Forum/livesim2/pkg/drm"
@@ -51,9 +52,13 @@ type c10in struct {
 	Seg     int64  `json:"seg,omitempty"`
 	NowMS   int64  `json:"now_ms,omitempty"`
 	Chunked bool   `json:"chunked,omitempty"`
-	Ato     string `json:"ato,omitempty"`
-	Mode    string `json:"mode,omitempty"` // number | tlt
-	MPD     string `json:"mpd,omitempty"`  // MPD name when it is not the asset's default one
+	// InProgress: the request arrives while the segment is still being produced, the server
+	// paces the remaining chunks in real time; the clear reference is then the whole-segment
+	// response for the same ato and instant (no pacing)
+	InProgress bool   `json:"in_progress,omitempty"`
+	Ato        string `json:"ato,omitempty"`
+	Mode       string `json:"mode,omitempty"` // number | tlt
+	MPD        string `json:"mpd,omitempty"`  // MPD name when it is not the asset's default one
 	// b64 / ids
 	Fn    string `json:"fn,omitempty"`  // pack | unpack | from | fromtrunc | kid2key | key2kid | kidfromstring
 	Str   string `json:"str,omitempty"` // input string (latin-1 code points = bytes)
@@ -345,7 +350,7 @@ func flat(s [][]sampleObs) []sampleObs {
 
 func (in *c10in) prefix(withDRM bool) string {
 	var sb strings.Builder
-	if in.Chunked {
+	if in.Chunked && (withDRM || !in.InProgress) {
 		sb.WriteString("chunkdur_0.5/")
 	}
 	if in.Ato != "" {
@@ -1115,6 +1120,31 @@ func (e *env) generate(rng *rand.Rand, c *lib.Ctx) []c10in {
 			}
 		}
 	}
+	// ---- chunked DRM requests that arrive while the segment is in progress: the chunks still to
+	// come are written after sleeping (the third branch of the pacing loop); every chunk must
+	// be encrypted. Real time, run concurrently.
+	type ip struct {
+		asset, rep, ct, drm, ato string
+		off                      int64 // ms after the advertised availability time
+	}
+	ips := []ip{{"testpic_2s", "V300", "video", "eccp_cbcs", "1.5", 100}, {"testpic_2s", "A48", "audio", "eccp_cenc", "1.5", 60}}
+	if c.Thorough() {
+		for _, d := range drms {
+			ips = append(ips, ip{"testpic_2s", "V300", "video", d, "1.75", rng.Int63n(200)}, ip{"testpic_2s", "A48", "audio", d, "1", rng.Int63n(500)})
+		}
+		ips = append(ips, ip{"testpic_8s", "V300", "video", "eccp_cenc", "6", 0}, ip{"testpic_6s", "A48", "audio", "eccp_cbcs", "4.5", 10})
+	}
+	for _, x := range ips {
+		a := e.assets[x.asset]
+		if a == nil || a.Rep(x.rep) == nil {
+			continue
+		}
+		ref := a.Ref()
+		in := c10in{Kind: "seg", Asset: x.asset, Rep: x.rep, CType: x.ct, DRM: x.drm, Seg: 300 + rng.Int63n(100000), Chunked: true, InProgress: true, Ato: x.ato, Mode: "number"}
+		atoS, _ := strconv.ParseFloat(x.ato, 64)
+		in.NowMS = ref.LoopE(in.Seg)*1000/ref.Timescale - int64(atoS*1000) + x.off
+		add("seg-in-progress:"+x.drm+":"+x.ct, in)
+	}
 	// ---- pre-encrypted asset
 	if e.pre != nil {
 		for _, d := range drms {
@@ -1306,8 +1336,23 @@ func runC10(c *lib.Ctx) error {
 	obs := make([]anyObs, len(ins))
 	distinct := map[string]bool{}
 	nseg := 0
+	var wg sync.WaitGroup
 	for i, in := range ins {
-		obs[i] = e.runAny(in)
+		if in.InProgress {
+			wg.Add(1)
+			go func(i int, in c10in) {
+				defer wg.Done()
+				obs[i] = e.runAny(in)
+			}(i, in)
+		}
+	}
+	for i, in := range ins {
+		if !in.InProgress {
+			obs[i] = e.runAny(in)
+		}
+	}
+	wg.Wait()
+	for i, in := range ins {
 		id := strconv.Itoa(i)
 		c.Res.Inputs[id] = in
 		e.oracle(c, id, in, obs[i])
